@@ -376,12 +376,14 @@ func (x *gen) sourceOp() {
 
 var wordPool = []string{"one", "two", "three", "polish", "Polish", "One", "ONE", "été", "Été", "a", "b", "c", "A", "ab", "Ab", "aB",
 	"x-y", "X-Y", "don't", "123", "4", "ǆ", "ǅ", "Ǆ", "ß", "日本", "élan", "Élan", "ñu", "syl", "lab", "bull", "gen", "er", "at", "or",
-	"w1", "W1", "über", "Über", "o'neil", "O'Neil", "z", "Z", "correct", "horse", "battery", "staple"}
+	"w1", "W1", "über", "Über", "o'neil", "O'Neil", "z", "Z", "correct", "horse", "battery", "staple",
+	// letters whose title-cased form has a different UTF-8 length (2->1, 2->1, 2->3, 3->2 bytes)
+	"ıx", "ſix", "ɐb", "ⱥb"}
 
 // words that all change under strings.Title, including pairs of distinct words that share one
 // title-cased form (outside the premise of C04/C06, but inside C08/C10)
 var capWords = []string{"one", "two", "three", "polish", "été", "ab", "x-y", "don't", "ǆ", "élan", "ñu", "syl", "lab", "bull",
-	"über", "o'neil", "correct", "horse", "re-do", "six", "µm", "w1x", "a", "b", "z"}
+	"über", "o'neil", "correct", "horse", "re-do", "six", "µm", "w1x", "a", "b", "z", "ıx", "ɐb", "ⱥb"}
 var titleCollisions = [][2]string{{"ǆ", "Ǆ"}, {"re-do", "re-Do"}, {"o'neil", "o'Neil"}, {"six", "ſix"}, {"µm", "μm"}, {"x-y", "x-Y"}}
 
 // capList: a list in which every word is capitalisable (no title-fixed word), possibly with a
@@ -774,6 +776,13 @@ func (x *gen) cliOp() {
 							words = append(words, w)
 						}
 					}
+					// a very long word (word files are arbitrary text): beyond common buffer sizes
+					if x.g.chance(6) {
+						n := []int{4095, 4096, 65535, 65536, 70000}[x.g.intn(5)]
+						long := strings.Repeat("q", n)
+						pos := x.g.intn(len(words) + 1)
+						words = append(words[:pos], append([]string{long}, words[pos:]...)...)
+					}
 					// words a shell user might well have in a file: format verbs, escapes, quotes
 					if x.g.chance(35) {
 						hostile := []string{"50%off", "x%%y", "%s", "%d%d", "100%", "a\\nb", "$HOME", "`id`", "--size", "-h", "%v%!"}
@@ -950,7 +959,7 @@ func (x *gen) historyOps(steps int) {
 		i := x.g.intn(len(pool))
 		o := &pool[i]
 		// caller-side update of one field
-		switch x.g.intn(8) {
+		switch x.g.intn(10) {
 		case 0:
 			o.spec.L = 1 + x.g.intn(12)
 		case 1:
@@ -965,6 +974,28 @@ func (x *gen) historyOps(steps int) {
 			o.spec.rs = append([]string{}, x.poolString(3, false), x.poolString(3, false))
 		case 6:
 			o.spec.ec = x.poolString(4, false)
+		case 7:
+			// the same required characters, partitioned differently (merged into one set, split into
+			// single characters, or with an empty entry added): a different recipe with the same "text"
+			all := strings.Join(o.spec.rs, "")
+			if all == "" {
+				all = "ab1"
+				o.spec.L = 2 + x.g.intn(6)
+			}
+			switch x.g.intn(3) {
+			case 0:
+				o.spec.rs = []string{all}
+			case 1:
+				o.spec.rs = nil
+				for _, c := range all {
+					o.spec.rs = append(o.spec.rs, string(c))
+				}
+				if len(o.spec.rs) > 8 {
+					o.spec.rs = append(o.spec.rs[:7], strings.Join(o.spec.rs[7:], ""))
+				}
+			default:
+				o.spec.rs = append([]string{""}, all)
+			}
 		}
 		id := fmt.Sprintf(" obj=c%d_%d", base, i)
 		switch x.g.intn(5) {
@@ -1115,8 +1146,43 @@ func generate(prop, tier string, seed uint64) []string {
 		}
 		x.emit("charinfo r=7/15/0/16/_/-/_")
 		rep(100, func() { x.wlgenOp("wlgen", "") })
+		// ordinary use of the library in the same process (custom exclusions next to the Ambiguous
+		// class, requirements, custom strings) …
+		rep(150, func() {
+			r := x.recipe(x.g.intn(4))
+			if x.g.chance(50) {
+				r.exclude |= 16
+				if r.ec == "" {
+					r.ec = x.poolString(4, false)
+				}
+			}
+			if x.g.chance(50) {
+				x.charinfoOp(r)
+			} else {
+				x.chargenOp(r, "")
+			}
+		})
+		// … after which the built-ins must still be exactly as documented
+		x.presetCells()
+		for _, f := range []uint32{1, 2, 4, 8, 16, 0, 3, 15, 31} {
+			x.emit("charinfo r=1/%d/0/0/_/-/_", f)
+		}
+		x.emit("charinfo r=7/15/0/16/_/-/_")
+		x.emit("chargen r=20/15/0/16/_/-/_ tape=%s", encWords(x.tape(61, 20, 4)))
 	case "C17":
 		rep(250, x.cliOp)
+		// word files with one very long word, at three positions, with and without --entropy
+		for _, n := range []int{65535, 65536, 70000} {
+			long := strings.Repeat("q", n)
+			for pos := 0; pos < 3; pos++ {
+				ws := []string{"alpha", "beta", "gamma", "delta"}
+				ws = append(ws[:pos*2], append([]string{long}, ws[pos*2:]...)...)
+				for _, extra := range [][]string{{"--entropy"}, {"--size=2", "--separator=space"}} {
+					args := append([]string{"words", "--file", "@FILE"}, extra...)
+					x.emit("cli argv=%s words=%s titles=%s", encList(args), encList(ws), encList(wordTitles(ws)))
+				}
+			}
+		}
 	case "C18":
 		rep(300, func() { x.chargenOp(x.recipe(x.g.intn(4)), "") })
 		rep(200, func() { x.charinfoOp(x.recipe(x.g.intn(4))) })
